@@ -260,6 +260,8 @@ pub struct Recv {
     /// field whatever the option says, so the option changes nothing (and the field's type
     /// parameter still needs its bound)
     pub inner_skip: bool,
+    /// the only field of the newtype is typed `Foreign<T>` (no FromMeta impl, has Default)
+    pub inner_foreign: bool,
 }
 
 impl Recv {
@@ -277,7 +279,7 @@ impl Recv {
                 with: self.inner_with,
                 post: self.inner_post,
                 split_attrs: false,
-                foreign: false,
+                foreign: self.inner_foreign,
             }),
             _ => None,
         }
@@ -424,6 +426,8 @@ pub struct Profile {
     pub hostile_names: bool,
     /// C20: generic receivers
     pub generic_recv: bool,
+    /// C20 only: newtype receivers whose skipped only field is of a type without a FromMeta impl
+    pub skip_newtype_foreign: bool,
     /// chance out of 8 that a struct receiver gets a flatten member
     pub flatten_weight: u32,
 }
@@ -611,6 +615,7 @@ impl<'a> Gen<'a> {
                         inner_with: With::None,
                         inner_post: Post::None,
             inner_skip: false,
+            inner_foreign: false,
                     });
                     let inner = self.meta_recv(depth + 1, false);
                     self.recvs[outer].shape = Shape::Newtype(Ty::Recv(inner));
@@ -676,6 +681,7 @@ impl<'a> Gen<'a> {
             inner_with: With::None,
             inner_post: Post::None,
             inner_skip: false,
+            inner_foreign: false,
         });
         if self.rng.chance(2, 3) {
             let inner = match self.rng.below(4) {
@@ -712,6 +718,16 @@ impl<'a> Gen<'a> {
             if matches!(self.recvs[id].shape, Shape::Newtype(_)) && self.rng.chance(1, 8) {
                 self.recvs[id].inner_skip = true;
             }
+            // `skip` on the only field of a newtype over a type that meets what the documentation asks of
+            // a skipped field (Default) and nothing more (compile-only profile: see known finding K2)
+            if self.profile.skip_newtype_foreign && matches!(self.recvs[id].shape, Shape::Newtype(Ty::Sc(_))) && self.rng.chance(1, 4) {
+                let r = &mut self.recvs[id];
+                r.inner_skip = true;
+                r.inner_foreign = true;
+                r.inner_with = With::None;
+                r.inner_post = Post::None;
+                r.post = Post::None;
+            }
         }
         // a declared value-for-absent on a unit / newtype receiver
         if self.profile.options && self.rng.chance(1, 3) {
@@ -744,6 +760,7 @@ impl<'a> Gen<'a> {
             inner_with: With::None,
             inner_post: Post::None,
             inner_skip: false,
+            inner_foreign: false,
         });
         let opts = self.profile.options;
         let mut r = self.recvs[id].clone();
@@ -919,6 +936,7 @@ impl<'a> Gen<'a> {
             inner_with: With::None,
             inner_post: Post::None,
             inner_skip: false,
+            inner_foreign: false,
         };
         self.recvs.push(r.clone());
         if self.profile.options && self.rng.chance(1, 3) {
@@ -1009,6 +1027,7 @@ impl<'a> Gen<'a> {
                 inner_with: With::None,
                 inner_post: Post::None,
                 inner_skip: self.rng.chance(1, 4),
+            inner_foreign: false,
             });
             return outer;
         }
@@ -1115,6 +1134,7 @@ impl<'a> Gen<'a> {
             inner_with: With::None,
             inner_post: Post::None,
             inner_skip: false,
+            inner_foreign: false,
         };
         self.recvs.push(r.clone());
         // one optional and one required scalar option keep body-layer mistakes expressible
